@@ -10,7 +10,7 @@ from ipaddress import ip_address, ip_network
 
 import xfrm
 from crypto import RsaPrivateKey, RsaPublicKey
-from message import PayloadID, Proposal, TrafficSelector, Transform
+from message import InvalidSyntax, PayloadID, Proposal, TrafficSelector, Transform
 
 __author__ = 'Alejandro Perez-Mendez <alejandro.perez.mendez@gmail.com>'
 
@@ -100,6 +100,8 @@ class Configuration(object):
                 raise ConfigurationError(f'Mandatory parameter {ex} missing for connection "{connection_name}"')
             except (AttributeError, TypeError, ValueError) as ex:
                 raise ConfigurationError(f'Invalid value in connection "{connection_name}": {ex}')
+            except InvalidSyntax as ex:
+                raise ConfigurationError(f'Invalid proposal in connection "{connection_name}": {ex}')
 
     def _load_ike_conf(self, name, conf_dict, my_addresses):
         encr = self._load_crypto_algs('encr', conf_dict.get('encr', ['aes256']), _encr_name_to_transform)
